@@ -116,6 +116,10 @@ def spaces(tier, seed):
                 note="every day 1900-01-01..2100-12-31"),
         Product("localized-month-names", {"ln": range(len(lang_names())), "lf": ["%d %B %Y", "%B %d, %Y %H:%M", "%B %Y", "%y %B %d", "%d-%B-%y %H:%M"], "d": [1, 15, 28],
                                           "pref": [1, 2], "now": [0]}),
+        Product("localized-with-fraction", {"ln": range(len(lang_names())), "lf": ["%d %B %Y %H:%M:%S,%f", "%d.%m.%Y %B %H:%M:%S %f", "%B %d %Y %I:%M %p %f",
+                                                                                 "%d %B %Y %H:%M:%S.%f", "%f %d %B %Y"],
+                                            "d": [5], "us": [456789, 30000, 5], "pref": [1], "now": [0]},
+                note="strings that match only after translation, with %f away from its usual place (and another '.digits' group in the string)"),
         Product("yearless-every-day", {"yf": YEARLESS, "doy": range(1, 367), "ynow": range(len(NOW_YL)), "pref": [0, 2]},
                 note="the year comes from the (virtual) current year, leap or not; day-of-year formats included"),
         Listed("format-beats-heuristics", [{"s": s, "f": f, "exp": e} for s, f, e in [
@@ -156,10 +160,10 @@ def run_case(sub, c):
     pd, pm = PREFS[c["pref"]]
     names = None
     langs = ["en"]
-    if sub == "localized-month-names":
+    if sub in ("localized-month-names", "localized-with-fraction"):
         lang, m, nm = lang_names()[c["ln"]]
         fmt = c["lf"]
-        dt = datetime(2013, m, c["d"], 10, 45)
+        dt = datetime(2013, m, c["d"], 10, 45, 13, c.get("us", 0))
         names = {"month": nm}
         langs = [lang]
     elif sub == "yearless-every-day":
@@ -202,7 +206,7 @@ def run_case(sub, c):
         got = o[1:]
         kind = "exception:" + o[1]
     cls = {"form": sub, "format": fmt, "kind": kind}
-    if sub == "localized-month-names":
+    if sub in ("localized-month-names", "localized-with-fraction"):
         cls["language"] = langs[0]
         cls["name"] = names["month"]
     return "bad", True, {"cls": cls, "expected": (exp, per), "observed": got,
